@@ -25,6 +25,8 @@ func crashAlphabet() []fsx.Op {
 		{K: "WRITE", H: "root/f", Off: 0, Cnt: 4096, Pat: 0x41, Stable: 2},
 		{K: "WRITE", H: "root/f", Off: 5000, Cnt: 3 * 4096, Pat: 0x42, Stable: 1},
 		{K: "WRITE", H: "root/f", Off: 4096, Cnt: 20 * 4096, Pat: 0x43, Stable: 0},
+		{K: "WRITE", H: "root/f", Off: 3 * 4096, Cnt: 4096, Pat: 0x44, Stable: 2}, // leaves a hole at block 2 (f has two blocks)
+		{K: "WRITE", H: "root/f", Off: 0, Cnt: 4 * 4096, Pat: 0x45, Stable: 2},    // after the previous one: fills the hole in front of an allocated block, the file does not grow
 		{K: "COMMIT", H: "root/f"},
 		{K: "SETATTR", H: "root/f", Size: 100},
 		{K: "SETATTR", H: "root/f", NoSize: true, Mtime: 777}, // attributes alone
